@@ -1,5 +1,5 @@
 """Manifest metadata (tools/gen_manifest.py turns it into MANIFEST.json)."""
-HOOK_COMMITS = ['621a573', '7ae3ccb']
+HOOK_COMMITS = ['621a573', '7ae3ccb', 'fa7b761']
 ENGINES = [
     dict(name='verus-extract', path='/verif/vlib', serves_properties=['C04', 'C05', 'C06', 'C08', 'C12', 'C14', 'C15', 'C17', 'C20'],
          kind_free_text='Verus 0.2026.09.13 on functions extracted mechanically from /repo on every run, contracts injected from /verif/units/<unit>/unit.rs'),
